@@ -259,6 +259,9 @@ def case_cli(run, i):
     rng = run.rng("cli", i)
     cols, info = gen_table(rng, 160 if run.tier == "quick" else 400)
     method = ["none", "haar", "hmm-germline", "hmm", "hmm-tumor"][i % 5]
+    if i % 4 == 1:
+        # a file whose weights are all whole numbers (1 = "no weighting", 0 = masked): the column reads back as integers
+        cols = dict(cols, weight=[0.0 if w == 0 else 1.0 for w in cols["weight"]])
     skip_low = bool(i % 2)
     outl = [0, 10, 3][i % 3]
     procs = [1, 2, 4][i % 3]
